@@ -456,6 +456,13 @@ def rewrite_body(text, rules_log, intended_panics=False, keep_asserts=False):
                         out.append(Tok("punct", "); assert(*r5_a " + op + " *r5_b); }", t.pos))
                         i = close + 1
                         continue
+                    if name == "format":
+                        # R17: `format!(..)` -> an opaque String (arguments must be effect-free, as for logging macros)
+                        _check_log_args(toks[k + 1:close])
+                        rules_log.append(("R17", norm("".join(x.text for x in toks[i:close + 1]))[:160] + " -> vfmt_string()"))
+                        out.append(Tok("ident", "vfmt_string()", t.pos))
+                        i = close + 1
+                        continue
                     if name in ("panic", "unreachable", "unimplemented", "todo"):
                         rules_log.append(("R5", norm("".join(x.text for x in toks[i:close + 1]))))
                         fn = "vpanic_intended" if intended_panics else "vpanic"
@@ -775,6 +782,8 @@ R9_RULES = [
             "let mut r9_n: usize = 0; while r9_n < $$e.len() { let $x = &mut $$e[r9_n]; r9_n = r9_n + 1; {", "} ) ;", "} }"),
     ("R9g", "$$e . iter ( ) . any ( | $x | $$c )",
             "{ let mut r9_any = false; let mut r9_k: usize = 0; while r9_k < $$e.len() && !r9_any { let $x = &$$e[r9_k]; if $$c { r9_any = true; } r9_k = r9_k + 1; } r9_any }"),
+    ("R9h", "for $x in $$e . values ( ) {",
+            "let mut r9_n: usize = 0; let r9_len: usize = $$e.len(); while r9_n < r9_len { let $x = $$e.nth_value_mut(r9_n); r9_n = r9_n + 1;"),
     ("R9f", "for $x in $$e . iter ( ) {",
             "let mut r9_n: usize = 0; while r9_n < $$e.len() { let $x = $$e.get(r9_n); r9_n = r9_n + 1;"),
 ]
